@@ -38,12 +38,21 @@ func (s *shape) String() string {
 		return "struct{Key " + s.child.String() + "; Name string}"
 	case "struct2":
 		return "struct{Pad int; Name string; Key " + s.child.String() + "}"
+	case "nstring":
+		return "Name(string)"
+	case "nstrs":
+		return "Names([]string)"
 	}
 	return s.kind
 }
 
+// named types: a string type and a slice-of-string type with their own names (generated code and
+// hand-written request types use both)
+type c11Name string
+type c11Names []string
+
 func shapes(maxCons int) []*shape {
-	leaves := []*shape{{kind: "string"}, {kind: "int"}, {kind: "bool"}}
+	leaves := []*shape{{kind: "string"}, {kind: "int"}, {kind: "bool"}, {kind: "nstring"}, {kind: "nstrs"}}
 	level := leaves
 	all := append([]*shape{}, leaves...)
 	for d := 1; d <= maxCons; d++ {
@@ -69,6 +78,10 @@ func (s *shape) typ() reflect.Type {
 		return reflect.TypeOf(0)
 	case "bool":
 		return reflect.TypeOf(true)
+	case "nstring":
+		return reflect.TypeOf(c11Name(""))
+	case "nstrs":
+		return reflect.TypeOf(c11Names(nil))
 	case "ptr":
 		return reflect.PtrTo(s.child.typ())
 	case "slice":
@@ -103,6 +116,10 @@ func (s *shape) values() []reflect.Value {
 		return []reflect.Value{reflect.ValueOf(0), reflect.ValueOf(7)}
 	case "bool":
 		return []reflect.Value{reflect.ValueOf(true)}
+	case "nstring":
+		return []reflect.Value{reflect.ValueOf(c11Name("a")), reflect.ValueOf(c11Name("")), reflect.ValueOf(c11Name("b"))}
+	case "nstrs":
+		return []reflect.Value{reflect.ValueOf(c11Names{"a"}), reflect.ValueOf(c11Names{}), reflect.ValueOf(c11Names{"a", "b"}), reflect.ValueOf(c11Names(nil))}
 	}
 	cv := s.child.values()
 	first := func(n int) []reflect.Value {
